@@ -4,6 +4,8 @@ import (
 	"fmt"
 	"go/ast"
 	"go/types"
+	"sort"
+	"strings"
 
 	"golang.org/x/tools/go/ssa"
 )
@@ -42,6 +44,24 @@ func (e *Engine) BuildLemmaVC(lm *Lemma, prop string) (vc *VC, err error) {
 					host = e.funcByKey[lm.PkgPath+" "+id.Name]
 				}
 			}
+			break
+		}
+	}
+	if host == nil {
+		// any function of the package will do as a host for positions
+		var keys []string
+		for k := range e.funcByKey {
+			if strings.HasPrefix(k, lm.PkgPath+" ") {
+				keys = append(keys, k)
+			}
+		}
+		sort.Strings(keys)
+		if len(keys) > 0 {
+			host = e.funcByKey[keys[0]]
+		}
+	}
+	for range []int{} {
+		if false {
 			break
 		}
 	}
@@ -114,18 +134,29 @@ func (vc *VC) runLemma(lm *Lemma, sp *ssa.Package) {
 				vc.lemmaError(lm, st, fmt.Errorf("let needs a call"))
 				continue
 			}
-			id, ok := call.Fun.(*ast.Ident)
-			if !ok {
-				vc.lemmaError(lm, st, fmt.Errorf("let needs a package-level function"))
-				continue
-			}
-			callee := e.funcByKey[lm.PkgPath+" "+id.Name]
-			if callee == nil {
-				vc.lemmaError(lm, st, fmt.Errorf("unknown function %s", id.Name))
-				continue
-			}
+			var callee *ssa.Function
 			var args []*Val
 			bad := false
+			switch f := call.Fun.(type) {
+			case *ast.Ident:
+				callee = e.funcByKey[lm.PkgPath+" "+f.Name]
+			case *ast.SelectorExpr:
+				recv, err := mkEnv().eval(f.X)
+				if err == nil && recv.Typ != nil {
+					if n := namedOf(recv.Typ); n != nil {
+						callee = e.funcByKey[lm.PkgPath+" (*"+n.Obj().Name()+")."+f.Sel.Name]
+						if callee == nil {
+							callee = e.funcByKey[lm.PkgPath+" ("+n.Obj().Name()+")."+f.Sel.Name]
+						}
+						args = append(args, recv)
+					}
+				}
+			}
+			if callee == nil {
+				vc.lemmaError(lm, st, fmt.Errorf("unknown function in %s", st.Text))
+				continue
+			}
+			off := len(args)
 			for k, a := range call.Args {
 				v, err := mkEnv().eval(a)
 				if err != nil {
@@ -134,9 +165,9 @@ func (vc *VC) runLemma(lm *Lemma, sp *ssa.Package) {
 					break
 				}
 				v = mkEnv().rvalue(v)
-				if k < len(callee.Params) && v.Typ == nil {
+				if k+off < len(callee.Params) && v.Typ == nil {
 					nv := *v
-					nv.Typ = callee.Params[k].Type()
+					nv.Typ = callee.Params[k+off].Type()
 					v = &nv
 				}
 				args = append(args, v)
